@@ -678,6 +678,9 @@ class SV:
         a, b = _ar(self, o)
         if a.sort() != I or b.sort() != I:
             raise Unsupported('floor division on reals')
+        if not z3.is_int_value(z3.simplify(b)):
+            # a symbolic divisor is enumerated (it is a job count here), so that the quotient stays linear
+            b = z3.IntVal(cur().concretize(SV(b)))
         if bool(SB(b == 0)):
             raise ZeroDivisionError('symbolic integer division by zero')
         # python floor division; z3 div is euclidean: equal for positive divisors
@@ -691,6 +694,8 @@ class SV:
         a, b = _ar(self, o)
         if a.sort() != I or b.sort() != I:
             raise Unsupported('modulo on reals')
+        if not z3.is_int_value(z3.simplify(b)):
+            b = z3.IntVal(cur().concretize(SV(b)))
         if bool(SB(b == 0)):
             raise ZeroDivisionError('symbolic modulo by zero')
         if not bool(SB(b > 0)):
